@@ -90,7 +90,15 @@ CHECKS = {
             "SeqCount.tla is model-checked with a restart (new instance on the same file) enabled between any two calls, with and "
             "without injected file faults; every transition is executed on real provider objects and a real file; histories longer "
             "than 2^W calls (W = 14, 8, 16 ...) with random restart points are validated by Trace_SeqCount.", "DESIGN.md 5/C19", ""),
+    "C20": (True, "model_checking",
+            "TLA+ spec of byte fields / conversion helpers; TLC grid model checking + vector replay; TLC trace validation "
+            "(exhaustive for widths 0, 1, 2)",
+            "ByteField.tla defines the field as (width, exactly-width octets) with the int / len / octet / hex views, the refusal "
+            "rules, assignment and octet-wise two's complement; TLC checks coherence laws on the grid and every vector is "
+            "executed on UnsignedByteField, ByteFieldU8..U64/Empty, ByteFieldGenerator and IntByteConversion; all 65 793 fields "
+            "of width <= 2 and random 32/64-bit values, from-bytes inputs, assignments and equality pairs are recorded and "
+            "validated by TLC.", "DESIGN.md 5/C20", ""),
 }
 NOT_YET = {}
-for _i in [4, 9, 10, 11, 17, 18, 20]:
+for _i in [4, 9, 10, 11, 17, 18]:
     NOT_YET[f"C{_i:02d}"] = "check not built yet in this revision of /verif (construction in progress, see DESIGN.md 11)"
